@@ -71,11 +71,11 @@ def gen_cases(tier: str, seed: int):
             yield {"spec": spec, "seed": [seed, int(rng.integers(0, 2**31))]}
     # directed: metrics written as expressions of matrix objects (multiples / quotients / inverses, formed before or after
     # the operand's factorisation was computed)
-    for k in zoo.TRACTABLE:
-        for _ in range({"quick": 8, "thorough": 200}[tier]):
-            spec = zoo.random_sys_spec(rng, kinds=(k,), dim_range=(2, 5))
-            spec["metric"] = "derived"
-            yield {"spec": spec, "seed": [seed, int(rng.integers(0, 2**31))]}
+    combos = [(b, t) for b in zoo.DERIVED_BASES for t in zoo.DERIVED_TEMPLATES]
+    for j, (b, t) in enumerate(combos * (1 if tier == "quick" else 10)):
+        spec = zoo.random_sys_spec(rng, kinds=(zoo.TRACTABLE[(j + seed) % len(zoo.TRACTABLE)],), dim_range=(2, 5))
+        spec["metric"] = f"derived:{b}:{'+'.join(t)}"
+        yield {"spec": spec, "seed": [seed, int(rng.integers(0, 2**31))]}
     for _ in range(n):
         yield {"spec": zoo.random_sys_spec(rng), "seed": [seed, int(rng.integers(0, 2**31))]}
 
